@@ -2,7 +2,7 @@
 import ast
 
 from ..core import AnalysisError, call_name, dotted, src, walk_shallow, is_const, linear, parents_map
-from ..lib import Rules, need, find_loops, guards_of
+from ..lib import Rules, Soft, need, find_loops, guards_of
 from . import refcheck
 
 M = 'pero_ocr.ocr_engine.line_ocr_engine'
@@ -44,13 +44,14 @@ def run(repo, chk):
                        'PAIR: text and logits are cut with identical bounds; the two functions equal their reference forms.')
     chk.note_undecided('quality of overlap detection', 'the property for parts whose logits have fewer rows than characters')
     R = Rules(repo, chk)
-    R.run('NEGSLICE', negslice, repo, chk)
-    R.run('PAIR', pair, repo, chk)
     refcheck.run_all(R, repo, chk, 'RECUR', 'merge_ref.py', WHAT)
-    R.run('PAIR', windows, repo, chk)
+    R.run('NEGSLICE', negslice, repo, chk)
+    R.run('PAIR', pair, repo, Soft(chk), soft_for=[M + ':merge_transcriptions_and_logits'])
+    refcheck.run_all(R, repo, chk, 'RECUR', 'ocr_ref.py', {'process_lines': 'window splitting with a quarter-width overlap; parts merged per line with the recorded spans'}, only=('process_lines',))
+    R.run('PAIR', windows, repo, Soft(chk), soft_for=[M + ':BaseEngineLineOCR.process_lines'])
     chk.expect('NEGSLICE', 3)
     chk.expect('PAIR', 5)
-    chk.expect('RECUR', 2)
+    chk.expect('RECUR', 3)
 
 
 def negslice(repo, chk):
